@@ -136,10 +136,28 @@ Fixpoint cmp_params (fuel : nat) (model impl : ctree expr) : list nat :=
 Definition points_of (pts : list (list (string * Q))) : list (string -> Q) :=
   map (fun p => envQ p (dfltQ 0)) pts.
 
+(* a repetition count is a natural number (C07's domain); at a point where some count of the hierarchy is negative
+   or fractional the closed forms and sympy's conventions for empty / reversed ranges say different things, and
+   neither is the property's business *)
+Fixpoint counts_natural (fuel : nat) (rho : string -> Q) (t : ctree expr) : bool :=
+  match fuel with
+  | O => false
+  | S f =>
+      match ct_rep t with
+      | Some (c, _) => match evalQ rho c with
+                       | Some q => Qle_bool 0 q && Pos.eqb (Qden (Qred q)) 1
+                       | None => false
+                       end
+      | None => true
+      end && forallb (counts_natural f rho) (ct_children t)
+  end.
+
 (* tie: implementation vs model (compile_routine) *)
 Definition tie_compile (r : routine) (impl : impl_result) (inexact : bool) (pts : list (list (string * Q))) : list nat :=
   match compile_routine r, impl with
-  | Ok m, IOk t => (cmp_trees (S (ct_height m)) inexact (points_of pts) m t ++ cmp_params (S (ct_height m)) m t)%list
+  | Ok m, IOk t => (cmp_trees (S (ct_height m)) inexact
+                              (filter (fun rho => counts_natural (S (ct_height m)) rho m) (points_of pts)) m t
+                    ++ cmp_params (S (ct_height m)) m t)%list
   | res, IErr cls => [if String.eqb (err_class res) cls then 0%nat else 1%nat]
   | res, IOk _ => [1%nat]
   end.
